@@ -267,8 +267,10 @@ pub fn c01_eval(h: &[Op], only_depths: Option<&[i64]>, with_ext: bool, dist: Opt
                         fs.push(f);
                     }
                 }
-                // the instance already is not what a fresh twin would be: whatever a further reorg shows is derivative
-                return fs;
+                // state, blocks or transactions already differ from the twin: whatever a further reorg shows is
+                // derivative. Stale trace rows alone cannot influence anything later (they are only ever read
+                // back): those queries are left out and the sweep goes on.
+                if d.iter().any(|x| !is_trace_method(&x.0)) { return fs; }
             }
         } else { fs.extend(fatal_finding("c01:twin", &b)); return fs; }
     }
@@ -462,8 +464,9 @@ pub fn c03_loss_eval(h: &[Op], seed: u64, dist: Option<&mut Dist>) -> Vec<Findin
     let lose = if rng.chance(1, 2) { Op::Clear } else { Op::Reopen };
     let mut l = Run::new();
     if !l.run(&hs[..cut]) { fs.extend(fatal_finding("c03", &l)); return fs; }
+    // a rejected call that changed the store (C05's subject) leaves a state the answers do not describe
+    if l.tracker.desynced { return fs; }
     let mid_block = !l.tracker.at_boundary();
-    if mid_block && matches!(lose, Op::Reopen) { /* a reopen mid-block is a crash of the indexer connection: also legal */ }
     if l.step(&lose).status.is_fatal() { fs.extend(fatal_finding("c03", &l)); return fs; }
     let eff = l.tracker.effective_history(&l.log, None);
     let mut p = Run::new();
@@ -527,6 +530,9 @@ pub fn c05_eval(hm: &[Op], injected: &[Injected], dist: Option<&mut Dist>) -> Ve
             }
         }
         if !out.status.is_rejected() || Tracker::effective(&resolved, &out) { keep.push(i); }
+        // from here on the answers no longer describe the engine (a block is open that no receipt told of):
+        // what follows would only be consequences; the erasure comparison below shows the effect itself
+        if r1.tracker.desynced { break; }
     }
     if r1.tracker.fatal { if let Some(d) = dist { d.absorb(&r1); for i in injected { bump(&mut d.injected_kinds, i.kind); } } return fs; }
     // the same history without the rejected calls (with the indexes the first run used)
@@ -591,7 +597,7 @@ pub fn coherence(run: &mut Run) -> Vec<Finding> {
     let mut bad = |sig: &str, what: String, fd: Value| { if fs.len() < 12 && !fs.iter().any(|f: &Finding| f.signature == format!("c06:{}", sig)) { fs.push(finding(format!("c06:{}", sig), what, fd)); } };
     let blocks = run.tracker.blocks.clone();
     let inst = &mut run.inst;
-    let mut q = |inst: &mut Inst, m: &str, p: Value| -> Value { match inst.rpc(m, p) { Ok(v) => canon(&v), Err(RpcFail::Err { message, .. }) => json!({"error": message}), Err(RpcFail::Panic(m)) => json!({"PANIC": m}), Err(RpcFail::Hang) => json!({"HANG": true}) } };
+    let q = |inst: &mut Inst, m: &str, p: Value| -> Value { match inst.rpc(m, p) { Ok(v) => canon(&v), Err(RpcFail::Err { message, .. }) => json!({"error": message}), Err(RpcFail::Panic(m)) => json!({"PANIC": m}), Err(RpcFail::Hang) => json!({"HANG": true}) } };
     let top = blocks.len() as u64;
     let bn = q(inst, "eth_blockNumber", json!([]));
     if !blocks.is_empty() && bn != json!(format!("0x{:x}", top - 1)) { bad("height", format!("eth_blockNumber answers {} after {} blocks were finalised", bn, top), json!({"eth_blockNumber": bn, "expected": top - 1})); }
@@ -1005,7 +1011,7 @@ fn worker(prop: &str, shard: u64, out: &Path, seed: u64, thorough: bool) -> Resu
     let t0 = Instant::now();
     let soft = if thorough { Duration::from_secs(480) } else { Duration::from_secs(50) };
     let hard = if thorough { Duration::from_secs(600) } else { Duration::from_secs(80) };
-    let iters: u64 = match (prop, thorough) { ("c01", false) => 8, ("c01", true) => 90, ("c03", false) => 8, ("c03", true) => 90, ("c10", false) => 50, ("c10", true) => 600, ("c06", false) => 70, ("c06", true) => 800, (_, false) => 45, (_, true) => 500 };
+    let iters: u64 = match (prop, thorough) { ("c01", false) => 8, ("c01", true) => 90, ("c03", false) => 8, ("c03", true) => 60, ("c10", false) => 50, ("c10", true) => 600, ("c06", false) => 70, ("c06", true) => 800, (_, false) => 45, (_, true) => 500 };
     let mut rng = Rng::new(seed ^ prop_salt(prop) ^ (shard.wrapping_mul(0x9E37_79B9)));
     let mut col = Collector { failures: BTreeMap::new(), evaluations: 0 };
     let mut dist = Dist::default();
@@ -1211,7 +1217,35 @@ fn probe(args: &[String], seed: u64) -> Result<(), Box<dyn std::error::Error>> {
                 for f in fs { println!("   {} :: {}\n        {}", f.signature, f.what, short(&f.first_difference)); }
             }
         }
-        _ => return Err("simprobe --what gen|corpus|c01|c03|c05|c06|c10".into()),
+        "verify" => {
+            let name = arg(args, "--name").unwrap_or_default();
+            let then: Vec<String> = arg(args, "--then").map(|s| s.split(',').map(|x| x.to_string()).collect()).unwrap_or_default();
+            let (_, _, h) = corpus().into_iter().find(|c| c.0 == name).ok_or("no such corpus entry")?;
+            let mut run = Run::new();
+            let mut all = h.clone();
+            for t in &then {
+                let ts = 1_700_009_000;
+                all.push(match t.split(':').collect::<Vec<_>>().as_slice() {
+                    ["reorg", n] => Op::Reorg(n.parse()?),
+                    ["mine", n] => Op::Mine { n: n.parse()?, ts },
+                    ["fin", n] => Op::Finalise { ts: n.parse()?, hash: Hx::zero32(), tx_count: Idx::Abs(0) },
+                    ["deposit"] => Op::Deposit { to_pkscript: PKSCRIPTS[0].into(), ticker: "ordi".into(), amount: "0x64".into(), ts, hash: Hx::zero32(), tx_idx: Idx::Auto, insc_id: "vdep".into() },
+                    ["finauto"] => Op::Finalise { ts, hash: Hx::zero32(), tx_count: Idx::Auto },
+                    ["balance"] => Op::Balance { pkscript: PKSCRIPTS[0].into(), ticker: "ordi".into() },
+                    ["emptyb64"] => Op::Deploy { from_pkscript: PKSCRIPTS[0].into(), data: Hx(vec![]), enc: Enc::EmptyBase64, tail: t_tail(ts, "eb64", 100) },
+                    ["blocknumber"] => Op::Query { method: "eth_blockNumber".into(), params: json!([]) },
+                    ["block0"] => Op::Query { method: "eth_getBlockByNumber".into(), params: json!(["0x0", false]) },
+                    _ => return Err(format!("unknown step {}", t).into()),
+                });
+            }
+            for op in &all {
+                let out = run.step(op).clone();
+                let r = out.result.to_string();
+                println!("{:<10} {:<70} {}", op.kind(), match &out.status { Status::Panic(m) => format!("PANIC {}", m), s => s.class() }, &r[..r.len().min(160)]);
+                if args.iter().any(|a| a == "--events") { for e in out.events.iter().filter(|e| is_mutation(e)) { println!("      {}", ev_string(e)); } }
+            }
+        }
+        _ => return Err("simprobe --what gen|corpus|verify|c01|c03|c05|c06|c10".into()),
     }
     Ok(())
 }
